@@ -39,6 +39,11 @@ func (fx *FnCtx) resolveAssign(as *AssignSet, e Expr, env map[string]SVal, st *S
 			return
 		}
 	case *ESel:
+		// each(s).F / eachval(m).F: field F of every message a slice element / map value points to
+		if c, ok := x.X.(*ECall); ok && (c.Fun == "each" || c.Fun == "eachval") && c.Recv == nil {
+			fx.resolveEach(as, c, x.Name, env, st)
+			return
+		}
 		// elems(s).F or p.F
 		if c, ok := x.X.(*ECall); ok && c.Fun == "elems" && c.Recv == nil {
 			s := fx.evalIn(c.Args[0], env, st, st, nil)
@@ -65,6 +70,24 @@ func (fx *FnCtx) resolveAssign(as *AssignSet, e Expr, env map[string]SVal, st *S
 			key, _ := fx.tm.heapKey(stp.Elem())
 			as.byKey[key] = append(as.byKey[key], assignLoc{kind: "slice", slice: s.v.t, field: -1, typ: stp.Elem()})
 			return
+		case "each", "eachval":
+			fx.resolveEach(as, x, "", env, st)
+			return
+		case "since":
+			// since(x, "T"): every cell of type T allocated after x (x: a pointer or map owned by the callee's state)
+			x0 := fx.evalIn(x.Args[0], env, st, st, nil)
+			tn, ok := x.Args[1].(*EStr)
+			if !ok {
+				unsupported("assigns since(x, \"T\")")
+			}
+			ev := &Evaluator{fx: fx, pkg: fx.pkg, bound: map[string]SVal{}, env: map[string]SVal{}}
+			t, _ := ev.resolveType(tn.V)
+			if t == nil {
+				unsupported("assigns since: unknown type %s", tn.V)
+			}
+			key, _ := fx.tm.heapKey(t)
+			as.byKey[key] = append(as.byKey[key], assignLoc{kind: "since", ref: x0.v.t, field: -1, typ: t})
+			return
 		case "entries":
 			m := fx.evalIn(x.Args[0], env, st, st, nil)
 			mi := fx.tm.mapInfo(m.typ.Underlying().(*types.Map))
@@ -73,6 +96,45 @@ func (fx *FnCtx) resolveAssign(as *AssignSet, e Expr, env map[string]SVal, st *S
 		}
 	}
 	unsupported("unsupported assigns location %v", e)
+}
+
+func (fx *FnCtx) resolveEach(as *AssignSet, c *ECall, field string, env map[string]SVal, st *State) {
+	v := fx.evalIn(c.Args[0], env, st, st, nil)
+	var pt *types.Pointer
+	loc := assignLoc{field: -1}
+	if c.Fun == "each" {
+		stp, ok := v.typ.Underlying().(*types.Slice)
+		if !ok {
+			unsupported("assigns each(x): x is not a slice")
+		}
+		pt, ok = stp.Elem().Underlying().(*types.Pointer)
+		if !ok {
+			unsupported("assigns each(x): elements are not pointers")
+		}
+		ekey, esrt := fx.tm.heapKey(stp.Elem())
+		loc.kind = "ptrelems"
+		loc.slice = v.v.t
+		loc.ref = fx.heap(st, ekey, esrt) // heap of the pointer cells, in the pre-state
+	} else {
+		mt, ok := v.typ.Underlying().(*types.Map)
+		if !ok {
+			unsupported("assigns eachval(x): x is not a map")
+		}
+		pt, ok = mt.Elem().Underlying().(*types.Pointer)
+		if !ok {
+			unsupported("assigns eachval(x): values are not pointers")
+		}
+		mi := fx.tm.mapInfo(mt)
+		loc.kind = "mapvals"
+		loc.slice = fmt.Sprintf("(select %s %s)", fx.heap(st, mi.HeapKey, mi.Sort), v.v.t)
+		loc.ref = mi.Dom + " " + mi.Val + " " + mi.KeySort
+	}
+	loc.typ = pt.Elem()
+	if field != "" {
+		loc.field = fieldIndex(pt.Elem(), field)
+	}
+	key, _ := fx.tm.heapKey(pt.Elem())
+	as.byKey[key] = append(as.byKey[key], loc)
 }
 
 func fieldIndex(t types.Type, name string) int {
@@ -104,9 +166,28 @@ func (as *AssignSet) member(key string, r Term, fi int) Term {
 			ds = append(ds, eq(r, l.ref))
 		case "slice":
 			ds = append(ds, fmt.Sprintf("(and (= (obj %s) (sobj %s)) (<= (soff %s) (idx %s)) (< (idx %s) (+ (soff %s) (scap %s))))", r, l.slice, l.slice, r, r, l.slice, l.slice))
+		case "since":
+			ds = append(ds, fmt.Sprintf("(> (obj %s) (obj %s))", r, l.ref))
+		case "ptrelems":
+			ds = append(ds, fmt.Sprintf("(exists ((ek Int)) (! (and (<= 0 ek) (< ek (slen %s)) (= %s (select %s (elemref %s ek)))) :pattern ((elemref %s ek))))", l.slice, r, l.ref, l.slice, l.slice))
+		case "mapvals":
+			p := strings.Fields(l.ref)
+			ds = append(ds, fmt.Sprintf("(exists ((mk %s)) (! (and (select (%s %s) mk) (= %s (select (%s %s) mk))) :pattern ((select (%s %s) mk))))", p[2], p[0], l.slice, r, p[1], l.slice, p[0], l.slice))
 		}
 	}
 	return or(ds...)
+}
+
+func (as *AssignSet) hasIndirect(key string) bool {
+	if as == nil {
+		return false
+	}
+	for _, l := range as.byKey[key] {
+		if l.kind == "ptrelems" || l.kind == "mapvals" || l.kind == "since" {
+			return true
+		}
+	}
+	return false
 }
 
 func (as *AssignSet) hasFieldLevel(key string) bool {
@@ -165,6 +246,42 @@ func (fx *FnCtx) havocWithFrame(st, pre *State, m *Modset, as *AssignSet) {
 			}
 			h := fx.s.freshConst("Hc", "(Array Ref "+srt+")")
 			st.heaps[key] = h
+			if as.hasIndirect(key) {
+				// some locations are reached through slice elements / map values / allocation time. Per field:
+				// a field named only by direct locations keeps the precise frame; a field named by an indirect
+				// location may change anywhere.
+				if _, isStruct := e.typ.Underlying().(*types.Struct); isStruct && !isTimeTime(e.typ) && !e.isMap {
+					si := fx.tm.structInfo(e.typ)
+					indirectAll := false
+					indirectField := map[int]bool{}
+					direct := &AssignSet{byKey: map[string][]assignLoc{}}
+					for _, l := range as.byKey[key] {
+						if l.kind == "ptrelems" || l.kind == "mapvals" || l.kind == "since" {
+							if l.field < 0 {
+								indirectAll = true
+							} else {
+								indirectField[l.field] = true
+							}
+						} else {
+							direct.byKey[key] = append(direct.byKey[key], l)
+						}
+					}
+					if !indirectAll {
+						var parts []Term
+						for i, f := range si.Fields {
+							if indirectField[i] {
+								continue
+							}
+							mem := direct.member(key, "r", i)
+							parts = append(parts, fmt.Sprintf("(=> (not %s) (= (%s (select %s r)) (%s (select %s r))))", mem, f.Sel, h, f.Sel, old))
+						}
+						if len(parts) > 0 {
+							fx.s.assume("true", fmt.Sprintf("(forall ((r Ref)) (! (=> (<= (obj r) %s) (and %s)) :pattern ((select %s r))))", pre.alloc, strings.Join(parts, " "), h))
+						}
+					}
+				}
+				continue
+			}
 			if len(as.byKey[key]) == 0 {
 				fx.s.assume("true", fmt.Sprintf("(forall ((r Ref)) (! (=> (<= (obj r) %s) (= (select %s r) (select %s r))) :pattern ((select %s r))))", pre.alloc, h, old, h))
 			} else {
@@ -257,6 +374,15 @@ func (fx *FnCtx) checkCalleeFrame(fr *Frame, ins ssa.Instruction, st *State, cal
 			case "slice":
 				goal = fmt.Sprintf("(or (> (sobj %s) %s) (= (scap %s) 0) (forall ((r Ref)) (=> (and (= (obj r) (sobj %s)) (<= (soff %s) (idx r)) (< (idx r) (+ (soff %s) (scap %s)))) %s)))",
 					l.slice, fx.allocEntry, l.slice, l.slice, l.slice, l.slice, l.slice, fx.assignSet.member(key, "r", l.field))
+			case "since":
+				goal = fmt.Sprintf("(or (>= (obj %s) %s) (forall ((r Ref)) (=> (> (obj r) (obj %s)) (or (> (obj r) %s) %s))))", l.ref, fx.allocEntry, l.ref, fx.allocEntry, fx.assignSet.member(key, "r", l.field))
+			case "ptrelems":
+				el := fmt.Sprintf("(select %s (elemref %s ek))", l.ref, l.slice)
+				goal = fmt.Sprintf("(forall ((ek Int)) (! (=> (and (<= 0 ek) (< ek (slen %s))) (or (> (obj %s) %s) (= %s nilref) %s)) :pattern ((elemref %s ek))))", l.slice, el, fx.allocEntry, el, fx.assignSet.member(key, el, l.field), l.slice)
+			case "mapvals":
+				p := strings.Fields(l.ref)
+				mv := fmt.Sprintf("(select (%s %s) mk)", p[1], l.slice)
+				goal = fmt.Sprintf("(forall ((mk %s)) (! (=> (select (%s %s) mk) (or (> (obj %s) %s) (= %s nilref) %s)) :pattern ((select (%s %s) mk))))", p[2], p[0], l.slice, mv, fx.allocEntry, mv, fx.assignSet.member(key, mv, l.field), p[0], l.slice)
 			}
 			fx.oblige("frame", fmt.Sprintf("%s/frame/call:%s→%s.%d", fr.obName(), callee, sanitize(key), i), "callee's assigns within caller's", st, goal, ins.Pos(), fx.frameProps())
 		}
